@@ -239,7 +239,12 @@ func c09Oracle(v *Verdict, d *DeclSpec, r *OpResult, target string, label string
 		return
 	}
 	if r.Exit || r.Panic != "" || r.Budget {
-		return // C04's business; nothing may have been executed though
+		// abnormal endings are C04's business; but a process that exits (completion
+		// without handler) must not have executed anything before
+		if r.Exit && len(execs)+len(handlers) > 0 {
+			v.fail("c09:executed-before-exit", "a command ran although the process then exited: "+desc)
+		}
+		return
 	}
 	if r.Err != "" {
 		// an error from Execute / the handler itself is returned unchanged
@@ -307,12 +312,14 @@ func c09Oracle(v *Verdict, d *DeclSpec, r *OpResult, target string, label string
 		}
 	}
 	for _, c := range handlers {
-		want := target
-		if !isExec {
-			want = "<nil>"
-		}
-		if string(c.Who) != want {
-			v.fail("c09:wrong-command-executed", fmt.Sprintf("CommandHandler should receive %q but got %q: %s", want, c.Who, desc))
+		if isExec {
+			if string(c.Who) != target {
+				v.fail("c09:wrong-command-executed", fmt.Sprintf("CommandHandler should receive the innermost active command %q but got %q: %s", target, c.Who, desc))
+			}
+		} else if cmdIsExec(d, string(c.Who)) {
+			// the innermost command has no Execute: what the handler is handed then is
+			// not fixed (nil today), but it must not be some OTHER executable command
+			v.fail("c09:wrong-command-executed", fmt.Sprintf("the innermost active command %q is not executable, yet CommandHandler received the executable command %q: %s", target, c.Who, desc))
 		}
 		if !sameArgs(c.Args, r.Rest) {
 			v.fail("c09:execute-args-differ-from-returned", fmt.Sprintf("CommandHandler received %s but ParseArgs returned %s: %s", mustJSON(c.Args), mustJSON(r.Rest), desc))
